@@ -251,6 +251,8 @@ def oracle(case, kd, s0):
         cur = I.get(nm)
         if cur is not None and case.get('convention') == 'hybrid' and e.get('is_source'):
             cur = -cur      # the documented hybrid convention flips source currents only
+        elif cur is not None and case.get('convention') == 'active':
+            cur = -cur      # the active convention flips every current
         if ty in ('W', 'O', 'P', 'VM', 'K', 'A'):
             if ty == 'W':
                 if v1 != v2:
@@ -264,7 +266,7 @@ def oracle(case, kd, s0):
             if ty == 'F':
                 f = parse_val(toks[4])
                 ic = I.get(toks[3])
-                if ic is not None and case.get('convention') == 'hybrid':
+                if ic is not None and case.get('convention') in ('hybrid', 'active'):
                     ic = -ic
                 cur = f * ic if (f is not None and ic is not None) else None
             if cur is None:
@@ -334,7 +336,7 @@ def oracle(case, kd, s0):
             elif ty == 'H':
                 h = parse_val(toks[4])
                 ic = I.get(toks[3])
-                if ic is not None and case.get('convention') == 'hybrid':
+                if ic is not None and case.get('convention') in ('hybrid', 'active'):
                     ic = -ic
                 if h is not None and ic is not None and dv != h * ic:
                     bad.append('%s: CCVS relation violated' % nm)
@@ -353,6 +355,8 @@ def oracle(case, kd, s0):
         elif ty == 'GY' and len(nn) == 4:
             r = parse_val(toks[5])
             i2, i1 = cur, I.get(nm + 'X')
+            if i1 is not None and case.get('convention') == 'active':
+                i1 = -i1
             if i1 is None or i2 is None or r is None:
                 incomplete.update(e['nidx'])
                 continue
@@ -537,7 +541,7 @@ def gen_cases(rng, tier):
         prof = profiles[i % len(profiles)]
         nl = netgen.gen_netlist(rng, prof)
         cases.append({'netlist': nl['lines'], 'tags': nl['tags'], 's0': '%d/%d' % (rng.randint(1, 9), rng.randint(1, 4)),
-                      'eps': '1/7', 'convention': 'hybrid' if i % 5 == 4 else 'passive',
+                      'eps': '1/7', 'convention': 'hybrid' if i % 5 == 4 else ('active' if i % 7 == 3 else 'passive'),
                       'methods': ['DM', 'LU', 'GE', 'ADJ'] if i % 3 == 0 else ['DM', 'LU']})
     return cases
 
